@@ -185,11 +185,7 @@ Definition sort_site_table : list ((string * string * string) * string) := [
   (("internal/report/source.go", "sourcePrinter.functions", "sort.Ints(lines)"), "ints");
   (("internal/report/source.go", "sourcePrinter.generate", "sort.Slice(files, order)"), "out-of-scope:source");
   (("internal/report/source.go", "sourcePrinter.splitIntoRanges", "sort.Slice(addrs, func(..))"), "out-of-scope:source");
-<<<<<<< HEAD
-  (("internal/report/source.go", "sourcePrinter.splitIntoRanges", "sort.Slice(unprocessed, func(..))"), "out-of-scope:source");
-=======
   (("internal/report/source.go", "sourcePrinter.splitIntoRanges", "sort.Slice(unprocessed, func(..))"), "ints");   (* fix 5f2b7e6 (F35) *)
->>>>>>> w/C08c
   (("profile/encode.go", "Profile.preEncode", "sort.Strings(keys)"), "strings");
   (("profile/encode.go", "Profile.preEncode", "sort.Strings(numKeys)"), "strings");
   (("profile/merge.go", "sortedKeys1", "sort.Strings(keys)"), "strings");
